@@ -153,6 +153,27 @@ func determinismMem(r *Run) {
 			r.Probe("inputs-beyond-the-slice-limit")
 		}
 	}
+	if !par1Set && t.Bool(1, 25, "long-path-twins") {
+		// two copies of one file deep in the tree: their names (relative to
+		// the index file) are longer than 255 bytes and differ only after
+		// their first 255 / 256 / 300 bytes
+		comp := strings.Repeat("deep-directory-", 4)
+		prefix := ""
+		for len(prefix) < []int{255, 256, 300, 1000}[t.Draw(4, "shared-prefix")] {
+			prefix += comp + "/"
+		}
+		data := expandContent(ckRandom, t.Draw64(0, "twin-seed"), 1+t.Draw(3*w.S+5, "twin-len"), w.S)
+		for _, leaf := range []string{"copy-a.dat", "copy-b.dat"} {
+			f := w.Files[0]
+			f.Name = prefix + leaf
+			f.Data = data
+			w.Files = append(w.Files, f)
+			w.N += (len(data) + w.S - 1) / w.S
+			base.Put(w.Path(len(w.Files)-1), data)
+		}
+		paths = w.FilePaths()
+		r.Probe("identical-files-with-long-common-path-prefix")
+	}
 	if !par1Set && len(w.Files) >= 3 && t.Bool(1, 30, "empty-input-file") {
 		// a zero-length file among the inputs (not the last ones): whatever
 		// Create does about it - refuse, or leave it out - it must do the
